@@ -20,8 +20,8 @@ type genLayout struct {
 	name       string
 	videoT     int
 	frameDur   int
-	videoSegs  []int // duration of each video segment in ticks (multiples of frameDur)
-	timeURI    bool  // SegmentTimeline + $Time$ for video
+	videoSegs  []int  // duration of each video segment in ticks (multiples of frameDur)
+	timeURI    bool   // SegmentTimeline + $Time$ for video
 	audioCodec string // "aac" (1024) | "ac3" (1536) | ""
 	audioSegs  []int  // frames per audio segment
 	stpp       bool   // stpp text track at timescale 1000 following the video grid (needs ms-integral video durations)
@@ -200,7 +200,7 @@ func genAsset(root string, L genLayout) error {
 		}
 		fmt.Fprintf(&asets, `<AdaptationSet contentType="audio" mimeType="audio/mp4" lang="en" segmentAlignment="true" startWithSAP="1">
 <SegmentTemplate startNumber="1" timescale="48000" duration="%d" initialization="$RepresentationID$/init.mp4" media="$RepresentationID$/$Number$.m4s"/>
-<Representation id="A1" codecs="%s" bandwidth="48000" audioSamplingRate="48000"/></AdaptationSet>`, L.audioSegs[0]*frame, codec)
+<Representation id="A1" codecs="%s" bandwidth="48000" audioSamplingRate="48000"/></AdaptationSet>`, nominalAudioDur(L, frame), codec)
 	}
 	if L.stpp {
 		tInit, tTrack, err := retimedInit("testpic_2s/imsc1_txt_sv/init.mp4", 1000)
@@ -254,4 +254,14 @@ func buildVodRoot() (string, error) {
 		}
 	}
 	return root, nil
+}
+
+// nominalAudioDur is the SegmentTemplate@duration written for the audio AdaptationSet: the video segment duration in
+// the audio timescale when that is a whole number (as in the bundled assets, where audio and video carry the same
+// nominal duration), else the first audio segment's own duration.
+func nominalAudioDur(L genLayout, frame int) int {
+	if L.videoSegs[0]*48000%L.videoT == 0 {
+		return L.videoSegs[0] * 48000 / L.videoT
+	}
+	return L.audioSegs[0] * frame
 }
